@@ -56,7 +56,11 @@ def sync_loop(cls, tag='C12', fate=None):
 
         calls = [0]
 
+        hist = []       # concrete runs: the state each completed iteration of the real loop left behind
+
         def recv(n):
+            if calls[0] >= 1:
+                hist.append((G.raised, G.framer_raised, G.reset, G.closed, bool(h.running)))
             G.raised, G.reset, G.framer_raised = False, False, False          # first action of an iteration
             calls[0] += 1
             if E.mode == 'concrete' and calls[0] > 3:   # the twin runs the real (endless) loop: stop it after three reads
@@ -78,6 +82,15 @@ def sync_loop(cls, tag='C12', fate=None):
         h = E.obj(S.SY + cls, server=server, framer=stub_framer(E, G), request=req, socket=sock, client_address=('peer', 502), running=True)
         out = E.attempt(lambda: E.method(h, 'handle'), allow_cut=True)
         E.prove('%s:no-exception-escapes-the-serving-loop' % tag, out.ok)
+        if E.mode != 'symbolic':
+            if out.ok and calls[0] <= 3:
+                hist.append((G.raised, G.framer_raised, G.reset, G.closed, bool(h.running)))       # the loop ended by itself
+            for (raised, fraised, reset, closed, running) in hist:
+                E.prove('%s:after-an-exception-the-connection-is-closed-or-the-framer-reset' % tag, (not raised) or (not running) or reset or closed)
+                if fate == 'closed':
+                    E.prove('%s:a-framing-error-ends-the-connection' % tag, (not fraised) or (not running) or closed)
+                elif fate == 'reset':
+                    E.prove('%s:a-framing-error-resets-the-framer-and-serving-goes-on' % tag, (not fraised) or (reset and running))
         if out.cut:
             E.prove('%s:after-an-exception-the-connection-is-closed-or-the-framer-reset' % tag, L.Implies(G.raised, L.Or(L.Not(L.truth(h.running)), G.reset, G.closed)))
             if fate == 'closed':
